@@ -226,6 +226,9 @@ fn c12(quick: bool) -> PropRun {
     use SendMode::*;
     let mut scripts: Vec<(String, Vec<Op>, Option<LwCfg>)> = collision_scripts().into_iter().map(|(n, o)| (n.to_string(), o, None)).collect();
     scripts.push(("cut-across-flushes".into(), vec![send(0, 0, 0, Persistent, 5000), send(0, 0, 1, TimeSensitive, 3000), send(1, 0, 0, Unreliable, 3000), send(1, 0, 1, Reliable, 2000)], Some(LwCfg { pwin: 8, fwin: 8, bw: [20_000, 20_000], ..LwCfg::small() })));
+    let wide = LwCfg { pwin: 4096, fwin: 4096, ..LwCfg::small() };
+    scripts.push(("warm-steady-reliable".into(), warm(&(0..7).map(|i| send(i, 0, (i % 2) as u8, if i % 3 == 2 { Persistent } else { Reliable }, 200 + 10 * i)).collect::<Vec<_>>(), 8), Some(wide.clone())));
+    scripts.push(("warm-steady-frag".into(), warm(&[send(0, 0, 0, Reliable, 100), send(1, 0, 1, Reliable, 3000), send(2, 0, 0, Persistent, 101), send(3, 0, 1, Reliable, 102), send(4, 0, 0, Reliable, 103), send(5, 0, 1, Unreliable, 104)], 8), Some(LwCfg { pwin: 8, fwin: 8, ..LwCfg::small() })));
     scripts.push(("ts-under-budget".into(), vec![send(0, 0, 0, Unreliable, 1448), send(0, 0, 0, TimeSensitive, 1448), send(0, 0, 0, TimeSensitive, 100), send(1, 0, 0, TimeSensitive, 1448), send(2, 0, 1, Reliable, 10)], Some(LwCfg { bw: [5000, 5000], ..LwCfg::small() })));
     for (name, ops, cfg_o) in scripts {
         let si = Arc::new(ScriptInfo::new(ops));
@@ -235,6 +238,7 @@ fn c12(quick: bool) -> PropRun {
             env.fates = &[Fate::Deliver, Fate::Drop, Fate::Dup, Fate::Delay1, Fate::Delay3];
             env.deltas = &[20, 0, 150, 2000]; env.flush_choice = true;
             if quick { env.flush_choice = false; }
+            if name.starts_with("warm-") { env.dev_start = 8; env.dev_rounds = 12; env.max_rounds += 8; env.fates = &[Fate::Deliver, Fate::Drop, Fate::Delay3, Fate::Delay6]; env.deltas = &[20, 2000]; env.fair_delta = 100; /* warm-up at 100 ms steps: the RTT estimate (0.4 s) is then well above the 60 ms the window's 20 ms steps need, so that late acknowledgements still arrive before the first resend */ }
             scs.push(spec(&format!("C12.{}", name), &cfg, &si, env, d, oracles));
         }
     }
@@ -262,15 +266,20 @@ fn c13(quick: bool) -> PropRun {
         ("backlog-100", backlog(100)),
         ("big-packet", vec![send(0, 0, 0, Reliable, 60_000)]),
         ("both-ways", (0..16).map(|i| send(i / 8, i % 2, 0, Reliable, 1400)).collect()),
+        ("idle-then-backlog", std::iter::once(send(0, 0, 5, Reliable, 100)).chain((0..60).map(|i| send(150, 0, (i % 2) as u8, Reliable, 1400))).collect()),
+        ("trickle-then-backlog", (0..10).map(|i| send(i * 12, 0, 5, Reliable, 300)).chain((0..60).map(|i| send(160, 0, (i % 2) as u8, Unreliable, 1400))).collect()),
     ];
     for (name, ops) in scripts {
         let si = Arc::new(ScriptInfo::new(ops));
         for bw in [1472u32, 5000, 100_000, 2_000_000] {
-            if quick && (bw == 100_000) { continue; }
-            let cfg = LwCfg { pwin: 4096, fwin: 4096, bw: [bw, bw], ..LwCfg::small() };
+            if quick && (bw == 100_000) && !name.contains("then-backlog") { continue; }
+            let idle = name.contains("then-backlog");
+            if idle && bw < 5000 { continue; }
+            let cfg = LwCfg { pwin: 4096, fwin: 4096, bw: [bw, bw], latency: if idle { 5 } else { 1 }, ..LwCfg::small() };
             let dev = if quick { 6 } else { 10 };
             let env = LwEnv { fates: &[Fate::Deliver, Fate::Drop, Fate::Delay3], deltas: &[20, 0, 1, 1000, 60_000], dev_rounds: dev, dev_start: 0, max_rounds: dev + 150, skip_choice: false, flush_choice: true,
                               blackouts: &[], stop_when_idle: false, fair_delta: 20, slow_after: usize::MAX, slow_delta: 250, fuel: 2_000_000, shifts: &[] };
+            let mut env = env; if idle { env.dev_start = 148; env.max_rounds = 148 + dev + 250; }
             scs.push(spec(&format!("C13.{}", name), &cfg, &si, env, d, oracles));
         }
     }
@@ -288,6 +297,7 @@ fn c20(quick: bool) -> PropRun {
     let d = if quick { 2 } else { 3 };
     use SendMode::*;
     let mut scripts: Vec<(String, Vec<Op>, Option<LwCfg>)> = collision_scripts().into_iter().map(|(n, o)| (n.to_string(), o, None)).collect();
+    scripts.push(("ts-multifragment-stale".into(), vec![send(0, 0, 0, Reliable, 6000), send(0, 0, 0, TimeSensitive, 3000), send(0, 0, 1, TimeSensitive, 1449), send(1, 0, 0, TimeSensitive, 4344), send(1, 0, 1, TimeSensitive, 2000), send(2, 0, 0, Unreliable, 10)], Some(LwCfg { bw: [20_000, 20_000], ..LwCfg::small() })));
     scripts.push(("ts-heavy".into(), vec![send(0, 0, 0, TimeSensitive, 1448), send(0, 0, 0, TimeSensitive, 1448), send(0, 0, 1, TimeSensitive, 700), send(1, 0, 0, TimeSensitive, 20), send(1, 0, 0, Reliable, 21), send(3, 0, 1, TimeSensitive, 22)], Some(LwCfg { bw: [5000, 5000], ..LwCfg::small() })));
     scripts.push(("alloc-stall".into(), (0..5).map(|i| send(0, 0, 0, if i % 2 == 0 { Reliable } else { TimeSensitive }, 2000 + i)).collect(), Some(LwCfg { pwin: 8, fwin: 8, rx_alloc: [3 * FRAG, 3 * FRAG], ..LwCfg::small() })));
     scripts.push(("window-stall".into(), (0..10).map(|i| send(i / 5, 0, (i % 2) as u8, MODES[i % 4], 10 + i)).collect(), Some(LwCfg { pwin: 2, fwin: 4, ..LwCfg::small() })));
